@@ -101,6 +101,9 @@ func runC13(r *Run) {
 	// a reply message reused across calls holds, after each successful call, what THAT call's envelope
 	// carried — also when that is the empty message (c01b.go)
 	c01ReusedReply(r)
+	// … and a message object reused across the RecvMsg calls of a stream holds, after each call, what
+	// THAT envelope carried — the zero message included (c02c.go)
+	c02ReusedMessage(r)
 	alpha := c13Alphabet()
 	rng := r.Rand("c13")
 	var seqs [][]respEnv
